@@ -610,3 +610,36 @@ Proof.
   rewrite (run_forest_sel2 tg szf fm hc gd thr ms PG Hgd WF (or_intror G) f HT Hh).
   rewrite (run_forest_sel2 tg szf fm hc gd thr ms CYG Hgd WF (or_introl eq_refl) f HT Hh). reflexivity.
 Qed.
+
+(* inside this option class the filter state is restored on the -pg shape as well (beyond [safe_pg] of Restore.v:
+   time= and size= triggers are allowed when they come with a filter or a depth= trigger) *)
+Theorem filter_state_restored_sel2 tg szf fm hc gd thr ms sh f :
+  0 < gd -> wf_tg tg -> sh = CYG \/ pg_guard tg -> all_timed f -> heights f <= ms ->
+  fc (fst (exec (fcfg2 tg szf fm hc gd thr ms sh) (flat_forest f) (init, []))) = fc init /\
+  ridx (fst (exec (fcfg2 tg szf fm hc gd thr ms sh) (flat_forest f) (init, []))) = 0.
+Proof.
+  intros Hgd WF G HT Hh.
+  assert (HF : Forall (stmt2 tg szf fm hc gd thr ms sh) f)
+    by (apply Forall_forall; intros k0 _; apply run_call_sel2; assumption).
+  assert (HR : Rel2 fm gd thr 0 0 0 FILTER_NO_MAX_DEPTH NO_TIME 0 (x02 fm gd thr)).
+  { unfold Rel2, x02. cbn [dead2 scope2 budget2 lim2 cthr2 csz2]. rewrite !N.eqb_refl.
+    split; [lia|]. split; [lia|]. split; [split; [discriminate|lia]|]. intros _.
+    split; [split; intro H; [left; apply negb_true_iff; exact H|destruct H as [H|H]; [rewrite H; reflexivity|lia]]|].
+    repeat split; lia. }
+  assert (Hix : idx init + heights f <= ms) by (cbn; lia).
+  destruct (run_kids_sel2 tg szf fm hc gd thr ms sh Hgd f HF HT init [] 0%Z 0%Z 0 FILTER_NO_MAX_DEPTH NO_TIME 0
+                          (x02 fm gd thr) 0 eq_refl HR eq_refl eq_refl Hix) as (s' & E & A).
+  unfold flat_forest. rewrite E. cbn [fst]. destruct A as (F & _ & _ & R & _ & _). split; assumption.
+Qed.
+
+(* ... and after every single call, from every state the class can reach (Rel2 links it to a context of the spec) *)
+Theorem call_restores_state_sel2 tg szf fm hc gd thr ms sh :
+  0 < gd -> wf_tg tg -> sh = CYG \/ pg_guard tg -> forall k, timed k -> forall s hk i o dp mx tm zs x,
+  fc s = fstate2 i o dp mx tm zs -> Rel2 fm gd thr i o dp mx tm zs x -> enabled s = true -> idx s + height k <= ms ->
+  exists s', exec (fcfg2 tg szf fm hc gd thr ms sh) (flat k) (s, hk) = (s', hk) /\ fc s' = fc s /\ ridx s' = ridx s.
+Proof.
+  intros Hgd WF G k HT s hk i o dp mx tm zs x Hfc HR Hen Hh.
+  destruct (run_call_sel2 tg szf fm hc gd thr ms sh Hgd WF G k HT s hk i o dp mx tm zs x (ridx s) Hfc HR Hen eq_refl Hh)
+    as (s' & E & A).
+  exists s'. split; [exact E|]. destruct A as (F & _ & _ & R & _ & _). split; assumption.
+Qed.
